@@ -64,6 +64,10 @@ EXPLANATION += (
     ' Round 9: node identity of the tree code (R-KEY/node-identity, rule of C10) is shared.'
 )
 
+EXPLANATION += (
+    ' The mean profile of a node is S / N of the summed statistics (R-ARITH/moments, rule of C11).'
+)
+
 RULE_TEXT = (
     "one obligation per (file kind, reader, required dataset), per "
     "provenance relation; non-trivial when the reader requires at least "
@@ -209,6 +213,10 @@ def check(ctx):
     from .C10 import check_node_identity
     check_node_identity(ctx, ('taxonomy.',), floor=3)
     check_count_denominators(ctx)
+    # what is summed over the leaves becomes a mean and a variance by the
+    # textbook formulas (rule of C11)
+    from .C11 import check_moments
+    check_moments(ctx)
     # the centroid statement presupposes that the statistics file holds
     # the true cluster sums: the merge of the worker buffers adds each
     # piece exactly once (shared with C09)
